@@ -696,3 +696,14 @@ Proof.
   - exists 2147483648, 0. unfold in_int64. repeat split; try lia; reflexivity.
   - exists 9223372036854775807, (-9223372036854775808). unfold in_int64. repeat split; try lia; reflexivity.
 Qed.
+
+(* ------------------------------------------------------------------ the C text still has the modelled shapes *)
+(* tools/genx_cmp.py emits each of these only when the corresponding source pattern is found:
+   Float_Cmp `double c = a - b; return c > 0 ? 1 : c < 0 ? -1 : 0;`, the common loop of
+   Array_Cmp / List_Cmp / Tuple_Cmp, the loop of Tree_Cmp (key, then value), the six predicate
+   definitions and the instance-else-memcmp rule of Cmp.c.  A changed shape leaves the definition
+   out of Generated.v and this file no longer compiles (= broken obligation). *)
+Theorem source_shapes :
+  int_cmp_threeway = true /\ float_cmp_shape_ok = true /\ seq_cmp_shape_ok = true /\ tree_cmp_shape_ok = true /\
+  cmp_predicates_shape_ok = true /\ cmp_default_shape_ok = true.
+Proof. repeat split. Qed.
